@@ -331,7 +331,7 @@ def worker(sub, idx, nchunks, n):
 
 def run(p):
     nchunks = 8 if p.tier != 'thorough' else 64
-    n = p.n(2400, 384000)
+    n = p.n(2400, 256000)
     run_chunks(p, worker, nchunks, (n // nchunks,))
 
 
